@@ -154,7 +154,7 @@ def check_property(prop, tier):
         per_clause[r[0]][r[2]] += 1
     if getattr(P, 'T3', False):
         from rtc import api
-        declared = {c for c in api.CLAUSES if c.startswith(prop + '.')}
+        declared = {c for c in api.CLAUSES if c.startswith(prop + '.') and c not in api.REPLAY_ONLY}
         missing = declared - set(per_clause)
         if missing and not info3.get('dropped_by_wall_clock_guard'):
             undecided.append('vacuity guard: declared clauses without a case: ' + ', '.join(sorted(missing)))
